@@ -192,12 +192,16 @@ pub fn establish(toks: Vec<Tok>) -> Vec<Tok> {
 ///             4: a slow TLS handshake: the ClientHello reaches the endpoint 0.6 x the handshake timeout after the connection was made,
 ///                the client's next flight 0.7 x the timeout after the client wrote it (a relay on loopback delays them): the whole handshake
 ///                takes about 1.3 x the timeout. out: [handshake completed and a request was answered (0|1), milliseconds until the client knew]
+///             5: a prompt client under a very long handshake timeout: here the second number is the timeout in SECONDS (as in the
+///                settings file, up to i64::MAX = the largest value the TOML reader accepts). out: [996] when a step takes more than 5 s |
+///                [a request was answered 200 (1); 0 = the endpoint refused the handshake or ended the connection without a 200]
 /// out: [996] | [closed by the endpoint (0|1), when: 0 = before 0.7 x the timeout, 1 = between that and 3 x + 500 ms, 2 = still open then]
 pub fn front(toks: Vec<Tok>) -> Vec<Tok> {
     let f = toks[0].clone();
     let rt = tokio::runtime::Builder::new_multi_thread().worker_threads(2).enable_all().build().unwrap();
     rt.block_on(async move {
         let (hs, lt) = (f[1] as u64, f[2] as u64);
+        let handshake_timeout = if f[0] == 5 { Duration::from_secs(hs) } else { Duration::from_millis(hs) };
         let make = move |addr: std::net::SocketAddr| {
             Settings::builder()
                 .listen_address(addr)
@@ -208,7 +212,7 @@ pub fn front(toks: Vec<Tok>) -> Vec<Tok> {
                     quic: None,
                 })
                 .allow_private_network_connections(true)
-                .tls_handshake_timeout(Duration::from_millis(hs))
+                .tls_handshake_timeout(handshake_timeout)
                 .client_listener_timeout(Duration::from_millis(lt))
                 .tcp_connections_timeout(Duration::from_secs(100))
                 .build()
@@ -217,6 +221,30 @@ pub fn front(toks: Vec<Tok>) -> Vec<Tok> {
         let Some(ep) = crate::front::start(make, crate::ctxutil::basic_hosts, None).await else {
             return vec![vec![996]];
         };
+        if f[0] == 5 {
+            // nothing is slow here: the handshake is made at once and a request follows; is the client served?
+            // 0 only when the endpoint refused or ended the connection; a handshake or an answer that takes more than 5 s on loopback
+            // is this machine's doing (996)
+            match crate::front::tls_probe(ep.addr, "localhost", &[b"http/1.1"]).await {
+                Some(true) => {}
+                Some(false) => return vec![vec![0]],
+                None => return vec![vec![996]],
+            }
+            let Some(mut s) = crate::front::tls_connect(ep.addr, "localhost", &[b"http/1.1"]).await else {
+                return vec![vec![996]];
+            };
+            let _ = s.write_all(b"CONNECT _check HTTP/1.1\r\nHost: x\r\n\r\n").await;
+            let mut acc = vec![];
+            let mut buf = [0u8; 1024];
+            while !acc.windows(4).any(|w| w == b"\r\n\r\n") {
+                match tokio::time::timeout(Duration::from_millis(5000), s.read(&mut buf)).await {
+                    Ok(Ok(n)) if n > 0 => acc.extend_from_slice(&buf[..n]),
+                    Ok(_) => break,
+                    Err(_) => return vec![vec![996]],
+                }
+            }
+            return vec![vec![acc.starts_with(b"HTTP/1.1 200") as u128]];
+        }
         if f[0] == 4 {
             // the relay: client -> endpoint segments are held back, endpoint -> client bytes pass at once
             let Ok(relay) = tokio::net::TcpListener::bind("127.0.0.1:0").await else { return vec![vec![996]] };
